@@ -123,10 +123,10 @@ CLAIMS = {
 # texts of rules added after the table above was written (appended to 'text')
 ADDENDA = {
     "C01": "Later additions: the free-form continuation decision table (shared with C04.R8, now with label/construct-name extraction "
-           "interpreted from the source and blank-line rows); DATA/NAMELIST/COMMON/DIMENSION list-statement matchers decided as tables (37 rows); index provenance (C01.R21). Also: class-local round trip by interpretation over 265 sample texts (C01.R22: accepted, literals/groups carried over, fixpoint; children are recording stubs validated two levels deep); string_replace_map and its inverse interpreted on 15 lines (R23); block printers on value-comparing stubs (R24); ';' split (R25); list-element registration of 2008 overrides (R26). Found and fixed F49, F51.",
+           "interpreted from the source and blank-line rows); DATA/NAMELIST/COMMON/DIMENSION list-statement matchers decided as tables (37 rows); index provenance (C01.R21). Also: class-local round trip by interpretation over 265 sample texts (C01.R22: accepted, literals/groups carried over, fixpoint; children are recording stubs validated two levels deep); string_replace_map and its inverse interpreted on 15 lines (R23); block printers on value-comparing stubs (R24); ';' split (R25); list-element registration of 2008 overrides (R26). Found and fixed F49, F51. The same round trip at full depth (R28/R29: the sample parsed all the way down by interpretation, equal tree and same text on re-parse; 1 known row F62).",
     "C02": "Later additions: continuation decision table (C02.R19); list-statement matcher tables with the re-assembly invariant (C02.R20); index provenance (C02.R21, 282 slices; found and fixed F45, F46). Also: the class-local round trip with token-level equality up to listed canonicalisations (C02.R22; 2 known rows F54, F55); replace-map table (R23; F50, F51 fixed); block printers (R24).",
-    "C03": "Later additions: BinaryOpBase.match decided as a table of 26 rows (operands ending in a dot, excluded operators, split side). Also: BinaryOpBase rows with operand classes that refuse their text; no literal with a signed exponent stays visible after the replace map (R10).",
-    "C04": "Later additions: continuation rows for lines that begin with digits / name: (never a label or construct name) and blank lines. Also: the continuation loop interpreted over multi-line statements; layout widening of every blank of 265 samples (R10, 908 texts).",
+    "C03": "Later additions: BinaryOpBase.match decided as a table of 26 rows (operands ending in a dot, excluded operators, split side). Also: BinaryOpBase rows with operand classes that refuse their text; no literal with a signed exponent stays visible after the replace map (R10); expressions parsed all the way down by interpretation, 307 operator pairs grouped as the precedence table requires (R11; the 7 F13 expressions are echoed as known).",
+    "C04": "Later additions: continuation rows for lines that begin with digits / name: (never a label or construct name) and blank lines. Also: the continuation loop interpreted over multi-line statements; layout widening of every blank and upper-casing of 354 samples (R10, 1311 texts; found and fixed F58, F59); the standard's optional-blank keyword pairs (R11, 30 pairs; found and fixed F60, F61).",
     "C05": "Later additions: fixed-form continuation table (R9), inline-comment table (R10), and no memoised function on the "
            "format-detection / reading path reads the file system (R11, 83 functions). Also: open-literal state across comment/blank lines in the fixed-form continuation table.",
     "C06": "Later additions: accessor indices within matcher arity (R19, 176 sites); block engine addresses the opening statement by "
